@@ -287,7 +287,10 @@ public:
     p.config = (int)g.rng.below(NCFG);
     // known finding D16 (node dereferenced before validation with hazard pointers): keep it exercised, but rarely
     if (strstr(cfgs[p.config].name, "<string,managed>") && strstr(cfgs[p.config].name, "/hp") && g.rng.chance(85)) p.config = (int)g.rng.below(NCFG - 1);
-    bool c11 = !strcmp(g.mode, "C11");
+    // C11 programs (one traverser holding bucket locks, one lock-free reader, updaters) are also two fifths of the campaign
+    // runs (C03, C16): iterator unlocks are release operations like every other unlock, and try_get_value has to stay
+    // lock-free while an iterator is parked on its bucket
+    bool c11 = !strcmp(g.mode, "C11") || (strcmp(g.mode, "C10") && g.rng.chance(40));
     nkeys = g.rng.range(4, 7);
     static const int caps[] = {1, 2, 4, 256, 256};
     int cap = caps[g.rng.below(5)];
